@@ -59,86 +59,118 @@ def extendedProductTree (values : List Nat) : Except PyErr (List (List Nat) × N
 /-- `gmpy.f_mod_2exp(x, t)`: non-negative residue modulo `2^t`. -/
 def fMod2exp (x : Int) (t : Nat) : Nat := (x % ((2 : Int) ^ t)).toNat
 
-/-- loop of `Inverse2exp`. -/
-def inverse2expLoop (n : Nat) (k : Nat) : Nat → Nat → Nat → Nat
+/-- body of the loop of `Inverse2exp`: `gmpy.f_mod_2exp(a * (2 - a * n), t)` for the new `t`. -/
+def inv2Step (n a t : Nat) : Nat := fMod2exp ((a : Int) * (2 - (a : Int) * n)) t
+
+/-- loop of `Inverse2exp`: `while t < k: t = min(k, 2*t); a = …`. `t` at least doubles until
+it reaches `k`, so `k + 1` units of fuel are enough (`inverse2exp_correct` would be false
+otherwise). -/
+def inverse2expLoop (n k : Nat) : Nat → Nat → Nat → Nat
   | 0, _, a => a
   | fuel + 1, t, a =>
-    if t < k then
-      let t' := min k (2 * t)
-      inverse2expLoop n k fuel t' (fMod2exp ((a : Int) * (2 - (a : Int) * n)) t')
+    if t < k then inverse2expLoop n k fuel (min k (2 * t)) (inv2Step n a (min k (2 * t)))
     else a
 
-/-- `Inverse2exp(n, k)`. -/
+/-- `Inverse2exp(n, k)` for `n ≥ 0`. For `k ≤ 2` the loop is not entered and the unreduced
+`n % 4` is returned. -/
 def inverse2exp (n k : Nat) : Option Nat :=
   if n % 2 = 0 then none else some (inverse2expLoop n k (k + 1) 2 (n % 4))
 
-/-- loop of `InverseSqrt2exp`. -/
-def inverseSqrt2expLoop (n : Nat) (k : Nat) : Nat → Nat → Nat → Nat
+/-- body of the loop of `InverseSqrt2exp`: `gmpy.f_mod_2exp(a * (3 - a * a * n) // 2, t)`
+(`//` by the positive literal 2: floor = `Int.ediv`). -/
+def invSqrtStep (n a t : Nat) : Nat :=
+  fMod2exp (((a : Int) * (3 - (a : Int) * a * n)) / 2) t
+
+/-- loop of `InverseSqrt2exp`: `while t < k: t = min(k, 2*t - 2); a = …`. -/
+def inverseSqrt2expLoop (n k : Nat) : Nat → Nat → Nat → Nat
   | 0, _, a => a
   | fuel + 1, t, a =>
     if t < k then
-      let t' := min k (2 * t - 2)
-      inverseSqrt2expLoop n k fuel t'
-        (fMod2exp (((a : Int) * (3 - (a : Int) * a * n)) / 2) t')
+      inverseSqrt2expLoop n k fuel (min k (2 * t - 2)) (invSqrtStep n a (min k (2 * t - 2)))
     else a
 
-/-- `InverseSqrt2exp(n, k)`. -/
+/-- `InverseSqrt2exp(n, k)` for `n ≥ 0`, `k ≥ 0`. -/
 def inverseSqrt2exp (n k : Nat) : Option Nat :=
   if k < 3 then (List.range (2 ^ k)).find? (fun a => a * a * n % 2 ^ k == 1)
   else if n % 8 ≠ 1 then none
   else some (inverseSqrt2expLoop n k (k + 1) 3 1)
 
-/-- `Sqrt2exp(n, k)` for `k ≥ 0`. -/
+/-- the list of four roots built at the end of `Sqrt2exp` from `r`. `2**k - r` is a Python
+int that would be negative for `r > 2^k`; `sqrt2exp_root_lt` shows `r < 2^k`, so the `Nat`
+subtraction is the same number. -/
+def sqrtRoots (k r : Nat) : List Nat :=
+  [r, 2 ^ k - r, fMod2exp ((2 : Int) ^ (k - 1) - r) k, fMod2exp ((2 : Int) ^ (k - 1) + r) k]
+
+/-- `Sqrt2exp(n, k)` for `n ≥ 0`, `k ≥ 0` (`k < 0` raises ValueError as well). -/
 def sqrt2exp (n k : Nat) : Except PyErr (List Nat) :=
   if n % 2 = 0 then .error .valueError
   else if k < 3 then .ok ((List.range (2 ^ k)).filter (fun x => ((x * x : Int) - n) % 2 ^ k == 0))
   else match inverseSqrt2exp n k with
     | none => .ok []
     | some s => match inverse2exp s k with
-      | none => .error .typeError   -- `2**k - None`; unreachable (s is odd)
-      | some r => .ok [r, 2 ^ k - r, fMod2exp ((2 : Int) ^ (k - 1) - r) k,
-                        fMod2exp ((2 : Int) ^ (k - 1) + r) k]
+      | none => .error .typeError   -- `2**k - None`; unreachable (`sqrt2exp_no_typeError`)
+      | some r => .ok (sqrtRoots k r)
 
-/-- loop of `ContinuedFraction` on non-negative inputs. -/
+/-- loop of `ContinuedFraction` on non-negative inputs; state `(a, b, r, s, t, u)`. -/
 def cfLoop : Nat → Nat → Nat → Nat → Nat → Nat → Nat → List (Nat × Nat × Nat)
   | 0, _, _, _, _, _, _ => []
   | fuel + 1, a, b, r, s, t, u =>
     if b = 0 then [] else
-    let q := a / b
-    let rem := a % b
-    let r' := r * q + s
-    let t' := t * q + u
-    (q, r', t') :: cfLoop fuel b rem r' r t' t
+    (a / b, r * (a / b) + s, t * (a / b) + u) ::
+      cfLoop fuel b (a % b) (r * (a / b) + s) r (t * (a / b) + u) t
 
-/-- `ContinuedFraction(a, b)` for `a, b ≥ 0`. Euclid needs at most `2*bitlen(b)+2` steps. -/
+/-- `ContinuedFraction(a, b)` for `a, b ≥ 0`. Euclid needs at most `2*bitlen(b)+2` steps
+(`continuedFraction_eq_convergents` proves that this fuel never runs out). -/
 def continuedFraction (a b : Nat) : List (Nat × Nat × Nat) :=
   cfLoop (2 * bitLength b + 2) a b 1 0 0 1
 
+/-- `d = (b + 1) // 2` of `DivmodRounded`. -/
+def dmrOffset (b : Int) : Int := Int.fdiv (b + 1) 2
+
 /-- `DivmodRounded(a, b)` (Python floor `divmod`). -/
 def divmodRounded (a b : Int) : Except PyErr (Int × Int) :=
-  if b = 0 then .error .zeroDivision else
-  let d := Int.fdiv (b + 1) 2
-  .ok (Int.fdiv (a + d) b, Int.fmod (a + d) b - d)
+  if b = 0 then .error .zeroDivision
+  else .ok (Int.fdiv (a + dmrOffset b) b, Int.fmod (a + dmrOffset b) b - dmrOffset b)
 
-/-- inner loop of `Sieve`: `for j in range(i*i, n, i): table[j] = False`. -/
-def sieveMark (n i : Nat) (table : Array Bool) : Array Bool := Id.run do
-  let mut t := table
-  let mut j := i * i
-  for _ in [0:n] do
-    if j < n then
-      t := t.set! j false
-      j := j + i
-  return t
+/-- `d` of the repaired `DivmodRounded` (fixes/D16-divmod-rounded.diff):
+`d = b // 2 if b > 0 else (b + 1) // 2`, i.e. `b / 2` rounded towards zero. -/
+def dmrOffsetR (b : Int) : Int := if 0 < b then Int.fdiv b 2 else Int.fdiv (b + 1) 2
+
+/-- `DivmodRounded(a, b)` with the D16 repair applied (the pinned code is `divmodRounded`). -/
+def divmodRoundedR (a b : Int) : Except PyErr (Int × Int) :=
+  if b = 0 then .error .zeroDivision
+  else .ok (Int.fdiv (a + dmrOffsetR b) b, Int.fmod (a + dmrOffsetR b) b - dmrOffsetR b)
+
+/-- `Sqrt2exp(n, k)` with a possibly negative `k` (`k < 0` raises ValueError). -/
+def sqrt2expZ (n : Nat) (k : Int) : Except PyErr (List Nat) :=
+  if k < 0 then .error .valueError else sqrt2exp n k.toNat
+
+/-- `len(range(lo, hi, step))` for `step > 0`. -/
+def rangeLen (lo hi step : Nat) : Nat := (hi - lo + step - 1) / step
+
+/-- inner loop of `Sieve`: `for j in range(i*i, n, i): table[j] = False`, with `cnt` the
+number of iterations left and `j` the current index (`j < n`, so the write is in bounds). -/
+def sieveMark (i : Nat) : Nat → Nat → Array Bool → Array Bool
+  | 0, _, t => t
+  | cnt + 1, j, t => sieveMark i cnt (j + i) (t.setIfInBounds j false)
+
+/-- outer loop of `Sieve`: `for i in range(2, isqrt(n) + 1): if table[i]: …` with `fuel`
+iterations left. `table[i]` is in bounds (`i ≤ isqrt n < n`), see `sieve_index_in_bounds`. -/
+def sieveOuter (n : Nat) : Nat → Nat → Array Bool → Array Bool
+  | 0, _, t => t
+  | fuel + 1, i, t =>
+    sieveOuter n fuel (i + 1)
+      (if t[i]? = some true then sieveMark i (rangeLen (i * i) n i) (i * i) t else t)
+
+/-- the table of `Sieve(n)` after the marking loops. -/
+def sieveTable (n : Nat) : Array Bool :=
+  sieveOuter n (isqrt n + 1 - 2) 2 (Array.replicate n true)
+
+/-- `[i for i, v in enumerate(table) if v][2:]` for a table of length `n`. -/
+def sieveCollect (n : Nat) (t : Array Bool) : List Nat :=
+  ((List.range n).filter (fun i => t[i]? = some true)).drop 2
 
 /-- `Sieve(n)`. -/
-def sieve (n : Nat) : List Nat := Id.run do
-  let mut table := Array.replicate n true
-  for i in [2:isqrt n + 1] do
-    if table[i]! then
-      table := sieveMark n i table
-  let mut out : Array Nat := #[]
-  for i in [2:n] do
-    if table[i]! then out := out.push i
-  return out.toList
+def sieve (n : Nat) : List Nat := sieveCollect n (sieveTable n)
 
 end Paranoid
